@@ -151,8 +151,16 @@ func (f *fctx) ordinaryCase(cur *channel.State) tcase {
 		{"o-sig-junk", func() (client.ChannelUpdateMsg, bool) { return f.upd(ok(), peer, f.g.Sig()), true }},
 		{"o-sig-foreign", func() (client.ChannelUpdateMsg, bool) { return f.upd(ok(), peer, f.sign(f.vaccs[0], ok())), true }},
 		{"o-sig-own-key", func() (client.ChannelUpdateMsg, bool) { s := ok(); return f.upd(s, peer, f.sign(f.h.Acc, s)), true }},
-		{"o-version+0", func() (client.ChannelUpdateMsg, bool) { s := ok(); s.Version = cur.Version; return f.signedUpd(s, peer), true }},
-		{"o-version+2", func() (client.ChannelUpdateMsg, bool) { s := ok(); s.Version = cur.Version + 2; return f.signedUpd(s, peer), true }},
+		{"o-version+0", func() (client.ChannelUpdateMsg, bool) {
+			s := ok()
+			s.Version = cur.Version
+			return f.signedUpd(s, peer), true
+		}},
+		{"o-version+2", func() (client.ChannelUpdateMsg, bool) {
+			s := ok()
+			s.Version = cur.Version + 2
+			return f.signedUpd(s, peer), true
+		}},
 		{"o-sum+1", func() (client.ChannelUpdateMsg, bool) {
 			s := ok()
 			s.Balances[0][peer] = new(big.Int).Add(s.Balances[0][peer], big.NewInt(1))
